@@ -154,8 +154,12 @@ def check_model(spec, res, ctx, only=None):
     case0 = {"spec": spec.to_json()}
     quick = ctx.quick
 
+    lagged_shock = any(e.get("lagshocks") for e in spec.eqs)
+
     def bad(check, detail, **extra):
         sig = {"n": spec.n, "log": spec.log, "regime": name.split("_")[4] if len(name.split("_")) > 4 else ""}
+        if lagged_shock:
+            sig["lagged_shock"] = True
         sig.update({k: v for k, v in extra.items() if k in ("input_kind", "mode", "error")})
         res.violation(check, sig, dict(case0, **extra), "%s: %s" % (name, detail))
 
@@ -449,7 +453,7 @@ def shard(item, res, ctx):
 
 
 def run(ctx, total, info):
-    fam = linre.family(ctx.tier, ctx.seed)
+    fam = linre.family(ctx.tier, ctx.seed) + linre.lagged_shock_specs()
     # determinate + large models first (they cost the most)
     fam.sort(key=lambda s: -(s.n * 10 + s.max_lag() + s.max_lead()))
     engine.run_shards(__name__, "shard", [s.to_json() for s in fam], ctx, total)
